@@ -343,13 +343,14 @@ fn do_repro_cent(src: &Source, t: &mut Toks, o: &mut Out) {
 /// one canonicalised answer: (function tag, integer content, float content)
 type Item = (i64, Vec<i64>, Vec<f64>);
 
-pub const ALL_TAGS: [&str; 22] = [
+pub const ALL_TAGS: [&str; 25] = [
     "square_clustering", "bfs_equal_size_partitions(1)", "bfs_equal_size_partitions(2)", "bfs_equal_size_partitions(3)",
     "bfs_equal_size_partitions(4)", "clustering(unweighted)", "clustering(weighted)", "average_clustering", "transitivity",
     "triangles", "generalized_degree", "connected_components", "weakly_connected_components",
     "strongly_connected_components", "eigenvector_centrality", "degree_centrality", "dijkstra::all_pairs",
     "modularity(components)", "breadth_first_search", "closeness_centrality", "betweenness_centrality",
-    "node_connected_component",
+    "node_connected_component", "dijkstra::all_pairs(target)", "dijkstra::multi_source(all paths)",
+    "dijkstra::multi_source(first_only, distances)",
 ];
 
 fn all_algorithms(g: &G, weighted: bool) -> Vec<Item> {
@@ -466,6 +467,36 @@ fn all_algorithms(g: &G, weighted: bool) -> Vec<Item> {
             Some(Ok(c)) => { let mut x: Vec<i64> = c.into_iter().collect(); x.sort(); (21, x, vec![]) }
         });
     }
+    // the other shortest-path entry points: a search that stops at a target, then searches from other sources on
+    // the same thread; multi_source with first_only != with_paths (serial and rayon arm must read the flags alike)
+    type Pairs = HashMap<i64, HashMap<i64, graphrs::algorithms::shortest_path::ShortestPathInfo<i64>>>;
+    fn pairs(tag: i64, r: Option<Result<Pairs, graphrs::Error>>) -> Item {
+        match r {
+            None => (tag, vec![PANIC], vec![]),
+            Some(Err(e)) => (tag, vec![-kind_code(&e.kind)], vec![]),
+            Some(Ok(m)) => {
+                let mut v: Vec<(i64, i64, f64, Vec<Vec<i64>>)> = vec![];
+                for (s0, mm) in m { for (t0, i) in mm { let mut ps = i.paths.clone(); ps.sort(); v.push((s0, t0, i.distance, ps)); } }
+                v.sort_by(|a, b| (a.0, a.1).cmp(&(b.0, b.1)));
+                let (mut ints, mut fl) = (vec![], vec![]);
+                for (s0, t0, d, ps) in v {
+                    ints.push(s0); ints.push(t0); fl.push(d);
+                    for p in ps { ints.extend(p); ints.push(-1); }
+                    ints.push(-2);
+                }
+                (tag, ints, fl)
+            }
+        }
+    }
+    let mut all: Vec<i64> = g.get_all_nodes().iter().map(|n| n.name).collect();
+    all.sort();
+    if let Some(t0) = all.last().cloned() {
+        out.push(pairs(22, guard(|| dijkstra::all_pairs(g, weighted, Some(t0), None, false, true))));
+        let srcs = all.clone();
+        out.push(pairs(23, guard(|| dijkstra::multi_source(g, weighted, srcs, None, None, false, true))));
+        let srcs = all.clone();
+        out.push(pairs(24, guard(|| dijkstra::multi_source(g, weighted, srcs, Some(t0), None, true, false))));
+    }
     out.push(fmap(19, guard(|| closeness::closeness_centrality(g, weighted, true))));
     out.push(fmap(20, guard(|| betweenness::betweenness_centrality(g, weighted, true))));
     out
@@ -490,6 +521,13 @@ fn do_repro_all(src: &Source, t: &mut Toks, o: &mut Out) {
     for k in POOLS {
         let g = rebuild(src);
         outs.push(in_pool(k, move || all_algorithms(&g, weighted)));
+    }
+    {
+        // a thread that has never run anything of the library (fresh thread-local state)
+        let g = rebuild(src);
+        if let Ok(r) = std::thread::Builder::new().stack_size(64 << 20).spawn(move || all_algorithms(&g, weighted)).expect("spawn").join() {
+            outs.push(r);
+        }
     }
     let closef = |tag: i64, a: f64, b: f64| {
         (a.is_nan() && b.is_nan())
